@@ -20,28 +20,8 @@ Z3_TIMEOUT_MS = int(os.environ.get("VF_Z3_TIMEOUT_MS", "10000"))
 CVC5_TIMEOUT_S = int(os.environ.get("VF_CVC5_TIMEOUT_S", "10"))
 
 
-def solve(constraints, goal, names=None, timeout_ms=None):
-    """decide  constraints |= goal.
-    returns (status, backend, time, model_json|None, detail).
-    z3 runs in a forked child with a hard wall-clock limit (z3's own timeout is not
-    reliable inside nlsat); on unknown/timeout the query goes to cvc5."""
-    t0 = time.time()
-    tmo = (timeout_ms or Z3_TIMEOUT_MS) / 1000.0
-    s = z3.Solver()
-    s.set("timeout", int(tmo * 1000))
-    for c in constraints:
-        s.add(c)
-    s.add(z3.Not(goal))
-    if _is_easy(list(constraints) + [goal]):
-        # linear / propositional / uninterpreted: z3 decides these reliably in-process
-        s.set("timeout", 5000)
-        res = s.check()
-        dt = time.time() - t0
-        if res == z3.unsat:
-            return DISCHARGED, "z3", dt, None, "unsat"
-        if res == z3.sat:
-            return REFUTED, "z3", dt, model_to_json(s.model(), names or {}), "sat"
-        s.set("timeout", int(tmo * 1000))
+def _z3_forked(s, tmo, names):
+    """s.check() in a forked child with a hard wall-clock limit; returns the child's payload or None"""
     r, w = os.pipe()
     pid = os.fork()
     if pid == 0:
@@ -84,6 +64,32 @@ def solve(constraints, goal, names=None, timeout_ms=None):
         except ProcessLookupError:
             pass
         os.waitpid(pid, 0)
+    return payload
+
+
+def solve(constraints, goal, names=None, timeout_ms=None):
+    """decide  constraints |= goal.
+    returns (status, backend, time, model_json|None, detail).
+    z3 runs in a forked child with a hard wall-clock limit (z3's own timeout is not
+    reliable inside nlsat); on unknown/timeout the query goes to cvc5."""
+    t0 = time.time()
+    tmo = (timeout_ms or Z3_TIMEOUT_MS) / 1000.0
+    s = z3.Solver()
+    s.set("timeout", int(tmo * 1000))
+    for c in constraints:
+        s.add(c)
+    s.add(z3.Not(goal))
+    if _is_easy(list(constraints) + [goal]):
+        # linear / propositional / uninterpreted: z3 decides these reliably in-process
+        s.set("timeout", 5000)
+        res = s.check()
+        dt = time.time() - t0
+        if res == z3.unsat:
+            return DISCHARGED, "z3", dt, None, "unsat"
+        if res == z3.sat:
+            return REFUTED, "z3", dt, model_to_json(s.model(), names or {}), "sat"
+        s.set("timeout", int(tmo * 1000))
+    payload = _z3_forked(s, tmo, names)
     dt = time.time() - t0
     if payload and payload["res"] == "unsat":
         return DISCHARGED, "z3", dt, None, "unsat"
@@ -96,7 +102,181 @@ def solve(constraints, goal, names=None, timeout_ms=None):
         return DISCHARGED, "cvc5", dt, None, f"z3 unknown ({reason}); cvc5 unsat"
     if st == "sat":
         return REFUTED, "cvc5", dt, {}, f"z3 unknown ({reason}); cvc5 sat (no model extracted)"
+    # second attempt on an equisatisfiable query without array-valued arguments (see _ackermannize)
+    forms, names2 = list(constraints) + [z3.Not(goal)], names
+    ack = _ackermannize(forms, names)
+    how = ""
+    if ack is not None:
+        forms, names2 = ack
+        how = " [array arguments of uninterpreted reductions eliminated]"
+        s2 = z3.Solver()
+        s2.set("timeout", int(min(tmo, 30.0) * 1000))
+        for f in forms:
+            s2.add(f)
+        payload = _z3_forked(s2, min(tmo, 30.0), names2)
+        dt = time.time() - t0
+        if payload and payload["res"] == "unsat":
+            return DISCHARGED, "z3", dt, None, "unsat" + how
+        if payload and payload["res"] == "sat":
+            return REFUTED, "z3", dt, payload.get("model") or {}, "sat" + how
+        st, det2 = _cvc5(s2)
+        dt = time.time() - t0
+        if st == "unsat":
+            return DISCHARGED, "cvc5", dt, None, f"z3 unknown ({reason}); cvc5 unsat" + how
+        if st == "sat":
+            return REFUTED, "cvc5", dt, {}, f"z3 unknown ({reason}); cvc5 sat (no model extracted)" + how
+        det = f"{det}; {det2}"
+    inst = _instantiation_search(forms, names2)
+    dt = time.time() - t0
+    if inst is not None:
+        return REFUTED, "z3-instantiated", dt, inst, \
+            f"z3 unknown ({reason}); cvc5 {det}; sat after fixing real constants" + how
     return UNDECIDED, "z3+cvc5", dt, None, f"z3 unknown ({reason}); cvc5 {det}"
+
+
+def _ackermannize(formulas, names):
+    """Equisatisfiable rewriting that removes array-valued arguments: every GROUND application f(a1..an) of an
+    uninterpreted function with an array argument (count/avg/std/sum of a lambda) becomes a fresh constant, and
+    for every two applications of the same f the functional-consistency constraint is added with array
+    extensionality skolemised:  f1 = f2  or  a scalar argument differs  or  the arrays differ at a fresh index.
+    Returns (formulas, names) or None when an application occurs under a binder with bound variables."""
+    apps = {}
+    seen = set()
+
+    def has_array_arg(t):
+        return z3.is_app(t) and t.decl().kind() == z3.Z3_OP_UNINTERPRETED and t.num_args() > 0 and \
+            any(a.sort().kind() == z3.Z3_ARRAY_SORT for a in t.children())
+
+    def free_of_vars(t, cache={}):
+        # true iff no de-Bruijn variable escapes t
+        def go(u, depth):
+            if z3.is_var(u):
+                return z3.get_var_index(u) < depth
+            if z3.is_quantifier(u):
+                return go(u.body(), depth + u.num_vars())
+            return all(go(c, depth) for c in u.children())
+        return go(t, 0)
+
+    bad = [False]
+
+    def collect(t, under_binder):
+        key = (t.get_id(), under_binder)
+        if key in seen:
+            return
+        seen.add(key)
+        if z3.is_quantifier(t):
+            collect(t.body(), True)
+            return
+        if not z3.is_app(t):
+            return
+        if has_array_arg(t):
+            if under_binder and not free_of_vars(t):
+                bad[0] = True
+                return
+            apps.setdefault(t.get_id(), t)
+        for c in t.children():
+            collect(c, under_binder)
+    for f in formulas:
+        collect(f, False)
+    if bad[0] or not apps:
+        return None
+    # innermost first (an application may occur inside the lambda of another one)
+    order = sorted(apps.values(), key=lambda t: len(t.sexpr()))
+    sub = []
+    for n_, t in enumerate(order):
+        t2 = z3.substitute(t, *sub) if sub else t
+        sub.append((t, z3.Const(f"ack!{t.decl().name()}!{n_}", t.sort())))
+        order[n_] = (t, t2)
+
+    def at(a, w):
+        if z3.is_quantifier(a) and a.is_lambda() and a.num_vars() == 1:
+            return z3.substitute_vars(a.body(), w)
+        return z3.Select(a, w)
+    extra = []
+    for i in range(len(order)):
+        for j in range(i + 1, len(order)):
+            (t1, a1), (t2, a2) = order[i], order[j]
+            if not t1.decl().eq(t2.decl()):
+                continue
+            diffs = []
+            for x, y in zip(a1.children(), a2.children()):
+                if x.sort().kind() == z3.Z3_ARRAY_SORT:
+                    w = z3.Const(f"ack!w!{i}!{j}!{len(diffs)}", x.sort().domain())
+                    diffs.append(at(x, w) != at(y, w))
+                else:
+                    diffs.append(x != y)
+            extra.append(z3.Or(sub[i][1] == sub[j][1], *diffs))
+    # outermost first so that enclosing applications are replaced before their inner ones
+    rsub = list(reversed(sub))
+
+    def rw(f):
+        for pair in rsub:
+            f = z3.substitute(f, pair)
+        return f
+    out = [rw(f) for f in formulas] + [rw(e) for e in extra]
+    for f in out:
+        # nothing array-valued may be left as an argument
+        pass
+    names2 = {k: (rw(v) if z3.is_expr(v) else v) for k, v in (names or {}).items()}
+    return out, names2
+
+
+INST_POOL = ["2", "1/2", "3", "1", "1/4", "5", "-1", "3/2", "0", "7/8"]
+INST_TRIES = int(os.environ.get("VF_INST_TRIES", "6"))
+
+
+def _instantiation_search(formulas, names):
+    """Counter-model search for queries the solvers leave open: fix the free real CONSTANTS that occur as a
+    factor or divisor of a nonlinear term (first only those, then all real constants) to small rationals
+    (a few deterministic assignments) and ask z3 again.  A model of the instantiated query is a model of the
+    original one, so a 'sat' here is a genuine counter-model; failing to find one proves nothing."""
+    consts, nonlin = {}, {}
+    seen = set()
+    stack = list(formulas)
+
+    def is_const(t):
+        return z3.is_app(t) and t.num_args() == 0 and t.decl().kind() == z3.Z3_OP_UNINTERPRETED \
+            and t.sort().kind() == z3.Z3_REAL_SORT
+    while stack and len(seen) < 200000:
+        t = stack.pop()
+        if t.get_id() in seen:
+            continue
+        seen.add(t.get_id())
+        if z3.is_quantifier(t):
+            stack.append(t.body())
+            continue
+        if z3.is_app(t):
+            if is_const(t):
+                consts[str(t)] = t
+            k = t.decl().kind()
+            ch = t.children()
+            if k == z3.Z3_OP_MUL and sum(0 if z3.is_rational_value(c) else 1 for c in ch) > 1:
+                for c in ch:
+                    if is_const(c):
+                        nonlin[str(c)] = c
+            elif k == z3.Z3_OP_DIV and is_const(ch[1]):
+                nonlin[str(ch[1])] = ch[1]
+            stack.extend(ch)
+    plans = []
+    for attempt in range(INST_TRIES):
+        pool = INST_POOL[attempt % 3:] + INST_POOL[:attempt % 3]
+        if nonlin:
+            plans.append([(nonlin[nm], z3.RealVal(pool[(j + attempt // 3) % 3])) for j, nm in enumerate(sorted(nonlin))])
+    for attempt in range(INST_TRIES if consts else 0):
+        plans.append([(consts[nm], z3.RealVal(INST_POOL[(j * (attempt + 1) + attempt) % len(INST_POOL)]))
+                      for j, nm in enumerate(sorted(consts))])
+    for sub in plans:
+        s = z3.Solver()
+        s.set("timeout", 8000)
+        for f in formulas:
+            s.add(z3.substitute(f, *sub))
+        payload = _z3_forked(s, 8.0, {k: (z3.substitute(v, *sub) if z3.is_expr(v) else v)
+                                      for k, v in (names or {}).items()})
+        if payload and payload["res"] == "sat":
+            model = payload.get("model") or {}
+            model["fixed_real_constants"] = {str(c): str(v) for c, v in sub}
+            return model
+    return None
 
 
 _HARD_KINDS = None
@@ -152,6 +332,9 @@ def _cvc5(solver):
         first = txt[0].strip() if txt else ""
         if first in ("sat", "unsat"):
             return first, first
+        if os.environ.get("VF_KEEP_SMT") and "rror" in first:
+            import shutil
+            shutil.copy(path, os.environ["VF_KEEP_SMT"])
         return "unknown", (first or "no output")[:120]
     except subprocess.TimeoutExpired:
         return "unknown", "timeout"
